@@ -75,7 +75,13 @@ class PolynomialApproximationSpace(ApproximationSpace):
             np.ndarray: Value of the basis function.
 
         """
-        i, j = divmod(k, self.degree + 1)
+        # Enumerate the monomials x^i * y^j with i + j <= degree, by total degree
+        exponents = [
+            (i, total - i)
+            for total in range(self.degree + 1)
+            for i in range(total + 1)
+        ]
+        i, j = exponents[k]
         return x[..., 0] ** i * x[..., 1] ** j
 
 
